@@ -675,7 +675,7 @@ class Executor:
     def s_Assign(self, s, env):
         v = self.eval(s.value, env)
         if self.contract.local_views and len(s.targets) == 1 and isinstance(s.targets[0], ast.Name) \
-                and s.targets[0].id in self.contract.local_views and isinstance(v, PList) and not v.items:
+                and s.targets[0].id in self.contract.local_views and ((isinstance(v, PList) and not v.items) or (isinstance(v, PDict) and not v.d and v.sym is None and v.symtok is None)):
             v = self.contract.local_views[s.targets[0].id](self, env)  # ghost view of a local list, created empty
         for t in s.targets:
             self.assign(t, v, env)
